@@ -241,3 +241,42 @@ Example ex_tracker :
   let al := allocators_new (mkLayout 16 2 (Some 5)) in
   tinv al /\ fst (allocate_retry 5 al 2 false) = Some (0, 0) /\ tracker_find_free (trk al) 3 = Some 0.
 Proof. split; [apply tracker_sound_new|]. vm_compute. split; reflexivity. Qed.
+
+(* ------------------------------------------------------------------------------------------------
+   Tie to the code (Gen/Fns.v is regenerated from buddy_allocator.rs / bitmap.rs / page_manager.rs on
+   every run by tools/gen_fns.py): the order / index arithmetic of the allocator model is equal to the
+   functions translated from the Rust sources (on the range of their u32 / usize arguments). *)
+From RV Require Import Gen.FnsLib Gen.Fns Gen.FnsAllocP.
+
+Theorem c14_code_next_higher_order_is_model : forall p, Fns.next_higher_order p = Buddy.next_higher_order p.
+Proof. exact next_higher_order_is_model. Qed.
+
+Theorem c14_code_buddy_page_is_model : forall p, Fns.buddy_page p = Buddy.buddy_page p.
+Proof. exact buddy_page_is_model. Qed.
+
+Theorem c14_code_calculate_usable_order_is_model : forall pages, (pages < 2 ^ 32)%N ->
+  Fns.calculate_usable_order pages = Buddy.calculate_usable_order pages.
+Proof. exact calculate_usable_order_is_model. Qed.
+
+Theorem c14_code_required_words_is_model : forall e,
+  U64GroupedBitmap_required_words e = Bitmap.required_words e.
+Proof. exact required_words_is_model. Qed.
+
+Theorem c14_code_height_for_capacity_is_model : forall c, (c < 2 ^ 32)%N ->
+  BtreeBitmap_height_for_capacity c = Bitmap.height_for_capacity c.
+Proof. exact height_for_capacity_is_model. Qed.
+
+Theorem c14_code_data_index_of_is_model : forall bit,
+  U64GroupedBitmap_data_index_of bit = ((bit / 64)%N, (bit mod 64)%N).
+Proof. exact data_index_of_is_model. Qed.
+
+Theorem c14_code_select_mask_is_model : forall bit, (bit < 64)%N ->
+  U64GroupedBitmap_select_mask bit = (2 ^ bit)%N.
+Proof. exact select_mask_is_model. Qed.
+
+Theorem c14_code_bits_in_range_is_model : forall lo hi i, Fns.bits_in_range_guard lo hi = true ->
+  N.testbit (Fns.bits_in_range lo hi) i = ((lo <=? i)%N && (i <? hi)%N)%bool.
+Proof. exact bits_in_range_spec. Qed.
+
+Theorem c14_code_ceil_log2_is_model : forall x, (0 < x)%N -> Fns.ceil_log2 x = N.log2_up x.
+Proof. exact ceil_log2_is_log2_up. Qed.
